@@ -126,7 +126,7 @@ theorem addMovingPin_fin (s : Sys) (c1 c2 : Nat) (o1 o2 w : Rat) (h1 : c1 < s.ma
       by_cases e2 : i = c2
       · simp [e2] at hi'
       · by_cases e1 : i = c1
-        · simp [e1, e2] at hi'
+        · simp [e1] at hi'
         · simp only [e1, e2, if_false] at hi'
           show (addAt (addAt s.rhs c1 _) c2 _).getD i 0 = 0
           rw [addAt_getD_ne _ _ _ _ e2, addAt_getD_ne _ _ _ _ e1]
@@ -429,8 +429,8 @@ theorem foldl_finalize_mat (is : List Nat) : ∀ (s : Sys), is.Nodup →
       rw [this]
     rw [hf]
     by_cases hc : s.nz.getD j true = false
-    · simp [-List.getD_eq_getElem?_getD, finalizeBody, hc, List.filter_cons]
-    · simp [-List.getD_eq_getElem?_getD, finalizeBody, hc, List.filter_cons]
+    · simp [-List.getD_eq_getElem?_getD, finalizeBody, hc]
+    · simp [-List.getD_eq_getElem?_getD, finalizeBody, hc]
 
 theorem finalize_mat (s : Sys) : (finalize s).mat = regEntries s ++ s.mat := by
   unfold finalize regEntries
@@ -444,6 +444,65 @@ theorem mem_regEntries (s : Sys) (e : Nat × Nat × Rat) (he : e ∈ regEntries 
   simp only [List.mem_map, List.mem_reverse, List.mem_filter, List.mem_range, decide_eq_true_eq] at he
   obtain ⟨i, ⟨hi, hc⟩, rfl⟩ := he
   exact ⟨rfl, hi, hc⟩
+
+/-! ### the finalized system is the normal-equation system of `Q + regQ` -/
+
+theorem bilin_append (a b : List (Nat × Nat × Rat)) (x t : Nat → Rat) :
+    bilin (a ++ b) x t = bilin a x t + bilin b x t := by
+  induction a with
+  | nil => simp [bilin]
+  | cons e es ih => simp only [List.cons_append, bilin, ih]; ring
+
+theorem diagQ_expand (es : List (Nat × Nat × Rat)) (hd : ∀ e ∈ es, e.2.1 = e.1) (x t : Nat → Rat) :
+    diagQ es (fun i => x i + t i) = diagQ es x + 2 * bilin es x t + bilin es t t := by
+  induction es with
+  | nil => simp [diagQ, bilin]
+  | cons e es ih =>
+    have he := hd e (List.mem_cons_self ..)
+    simp only [diagQ, bilin, ih (fun e' h' => hd e' (List.mem_cons_of_mem _ h')), he, sq]
+    ring
+
+theorem diag_psd (es : List (Nat × Nat × Rat)) (hd : ∀ e ∈ es, e.2.1 = e.1 ∧ 0 ≤ e.2.2) (t : Nat → Rat) :
+    0 ≤ bilin es t t := by
+  induction es with
+  | nil => simp [bilin]
+  | cons e es ih =>
+    obtain ⟨he, hv⟩ := hd e (List.mem_cons_self ..)
+    have := ih (fun e' h' => hd e' (List.mem_cons_of_mem _ h'))
+    simp only [bilin, he]
+    have h2 : 0 ≤ e.2.2 * (t e.1 * t e.1) := mul_nonneg hv (mul_self_nonneg _)
+    nlinarith [h2]
+
+theorem tiny_nonneg : (0 : Rat) ≤ tiny := by decide +kernel
+
+theorem regEntries_diag (s : Sys) : ∀ e ∈ regEntries s, e.2.1 = e.1 ∧ 0 ≤ e.2.2 := by
+  intro e he
+  obtain ⟨a, _, _⟩ := mem_regEntries s e he
+  rw [a]
+  exact ⟨rfl, tiny_nonneg⟩
+
+/-- `finalize` turns the normal-equation system of `Q` into that of `Q + regQ`. -/
+theorem finalize_inv (s : Sys) (Q : (Nat → Rat) → Rat) (h : Inv s Q) :
+    Inv (finalize s) (fun x => Q x + regQ s x) := by
+  refine ⟨?_, ?_, ?_, ?_⟩
+  · intro x t
+    have g := h.grad x t
+    have d := diagQ_expand (regEntries s) (fun e he => (regEntries_diag s e he).1) x t
+    rw [finalize_mat, finalize_rhs, bilin_append, bilin_append]
+    simp only [regQ, g, d]
+    ring
+  · rw [finalize_rhs, finalize_matSize]; exact h.len
+  · intro t
+    rw [finalize_mat, bilin_append]
+    have := diag_psd (regEntries s) (regEntries_diag s) t
+    have := h.psd t
+    linarith
+  · intro e he
+    rw [finalize_mat, List.mem_append] at he
+    rw [finalize_matSize]
+    rcases he with he | he
+    · exact (mem_regEntries s e he).2.1
+    · exact h.rows e he
 
 /-! ### the finalized systems for `W` and `k·W` have the same solutions -/
 
